@@ -1,26 +1,2 @@
-"""The libm oracle protocol: a model result (2 fn arg) asks for a libm value; the harness computes it
-with the implementation's own libm (suite "libm") and the case is re-run with the table extended."""
-import vcheck
-
-
-def resolve_needs(lines, max_rounds=40):
-    """lines: '<suite> <sx>' whose sx has the libm table as second element. Returns (model results, final lines)."""
-    lines = list(lines)
-    res = vcheck.run_model(lines)
-    for _ in range(max_rounds):
-        need = [(i, r) for i, r in enumerate(res) if r.startswith("(2 ")]
-        if not need:
-            break
-        qs = sorted(set(tuple(vcheck.sx_parse(r)[1:]) for _, r in need))
-        ans = vcheck.run_impl(["libm (0 (%s))" % " ".join("(%d %d)" % q for q in qs)])[0]
-        table = {(a[0], a[1]): a[2] for a in vcheck.sx_parse(ans)[1]}
-        for i, r in need:
-            q = tuple(vcheck.sx_parse(r)[1:])
-            suite, sx = lines[i].split(" ", 1)
-            v = vcheck.sx_parse(sx)
-            v[1] = v[1] + [[q[0], q[1], table[q]]]
-            lines[i] = suite + " " + vcheck.sx_str(v)
-        sub = vcheck.run_model([lines[i] for i, _ in need])
-        for (i, _), r in zip(need, sub):
-            res[i] = r
-    return res, lines
+"""kept for bin/sweep: the libm oracle protocol lives in lib/vcheck.py"""
+from vcheck import resolve_needs
